@@ -123,7 +123,6 @@ def handle : Handler := fun m j =>
       | none => throw s!"unknown pass {nm}")
     let out := runPasses ids model
     return obj [("model", modelJ out), ("valid", toJson (validModel model)),
-      ("dedup_faithful", toJson (dedupFaithfulG model.graph)),
       ("chain_ok", toJson (chainOK ids model)), ("valid_after", toJson (validModel out)),
       ("why", strsJ ((if ssaG model.graph then [] else ["ssa"]) ++ (if closedG model.graph then [] else ["closed"]) ++
         (if noFwdG model.graph then [] else ["nofwd"]) ++ (if scopedG [] model.graph then [] else ["scoped"]) ++
